@@ -185,7 +185,7 @@ impl Property for C12 {
     }
     fn rule(&self) -> String {
         "rule-aware glob ASTs (incl. rooted shapes `/x`, `/**`, `/**/x`, `</a:1,>`) and a directed \
-         family with `.` / `..` components at depth 0-2 and near misses, and any() of two; \
+         family with `.` / `..` components at depth 0-2 and near misses, and any() of two to five; \
          clause (a): has_root() == Always => every matched pool path starts with `/`; clause (b): \
          a glob never reports Sometimes; clause (c): reference dot-component scan => \
          has_semantic_literals(); one evaluation = one (pattern, path) or one scan; non-trivial = \
@@ -209,7 +209,9 @@ impl Property for C12 {
         vec!["rooting_family_built", "root_always", "root_never", "root_sometimes_any", "always_rooted_matched", "dot_component", "dot_component_nested", "dot_near_miss"]
     }
     fn decode(&self, t: &mut Tape) -> PatCase {
-        let n = 1 + t.weighted(&[80, 20]);
+        // one glob, or a combinator of 2-5 (the root verdict of a combinator folds over *all* of
+        // its members: rooted, rooted, unrooted must not be `Always`)
+        let n = 1 + t.weighted(&[64, 12, 10, 8, 6]);
         let exprs: Vec<Expr> = (0..n)
             .map(|_| {
                 if t.chance(100) {
